@@ -129,6 +129,7 @@ class Recorder:
         self.stage_objects = []
 
     def __call__(self, stage, obj, info):
+        ev = {"stage": stage, "feat": features(obj)}  # before the trace is opened: a trace never lacks its entry event
         if stage == "entry":
             o = info["options"]
             opts = {k: bool(o[v]) for k, v in OPT_MAP.items()}
@@ -138,7 +139,7 @@ class Recorder:
             self.stage_objects = []
         if self.cur is None:
             return
-        self.cur["ev"].append({"stage": stage, "feat": features(obj)})
+        self.cur["ev"].append(ev)
         self.stage_objects.append((stage, obj))
 
     def mark_raised(self):
